@@ -234,6 +234,10 @@ def main():
     w('ClassOf(nm) == MethodByName(nm).cid')
     w('Synchronous(m) == m.resp # <<>>')
     w('ArgNames(m) == [i \\in 1..Len(m.args) |-> m.args[i].n]')
+    w('\\* RPC metadata in use (Rpc.tla): the valid replies of a request, whether it waits, reply matching')
+    w('Resp(nm) == { MethodByName(nm).resp[j] : j \\in 1..Len(MethodByName(nm).resp) }')
+    w('Waits(nm) == Synchronous(MethodByName(nm))')
+    w('IsReplyTo(r, nm) == nm \\in MethodNames /\\ r \\in Resp(nm)')
     w('')
     w('\\* ---- internal consistency of the catalogue (checked by TLC as ASSUMEs in MC_Catalog) ----')
     w('CatalogWellFormed ==')
